@@ -171,10 +171,18 @@ def A10_descending_contract(repo, clause):
                             "the descending-order contract must be re-triaged")
     # membership quantifier: a term is dropped iff ANY of its atoms is deleted
     anys = [c for c in calls_in(callee) if call_name(c) in ("any", "all") and any(
-        isinstance(x, ast.Compare) and isinstance(x.ops[0], ast.In) for x in ast.walk(c))]
+        isinstance(x, ast.Compare) and isinstance(x.ops[0], (ast.In, ast.Eq)) for x in ast.walk(c))]
     isin = [c for c in calls_in(callee) if call_name(c) in ("isin", "in1d")]
     if not anys and not isin:
         raise AnalysisError("A10: membership test of term atoms against the deleted set not found")
+    # order-sensitive library calls on the index parameter
+    for c in calls_in(callee):
+        if call_name(c) == "searchsorted" and c.args:
+            a0 = expand(callee, c.args[0])
+            if any(isinstance(x, ast.Name) and x.id == P for x in ast.walk(a0)):
+                obs.append(Ob("A10", clause, callee, c, not iterative,
+                              "np.searchsorted needs its first argument in ASCENDING order, but the same parameter `%s` must be DESCENDING for the iterative re-index "
+                              "(and every caller passes sorted(..., reverse=True)): the binary search misses deleted atoms" % P, slot="searchsorted-order"))
     for c in anys:
         obs.append(Ob("A10", clause, callee, c, call_name(c) == "any",
                       "a term is dropped when %s of its atoms is in the deleted set (must be ANY)" % call_name(c).upper(), slot="drop-quantifier"))
